@@ -318,12 +318,12 @@ func verdicts(ctx *core.Ctx, rp *reporter, jobs []*job, res []result, all bool) 
 		if r.refused {
 			continue
 		}
-		if all || r.suspect || small(r.rec) || jobs[i].Variant == "big" {
+		if all || r.suspect || small(r.rec) || jobs[i].Variant == "big" || jobs[i].Variant == "deferred-clear-tlc" {
 			sel = append(sel, r.rec)
 			idx = append(idx, i)
 		}
 	}
-	bad, err := judge(ctx, sel, 40)
+	bad, err := judge(ctx, sel, 80)
 	if err != nil {
 		return err
 	}
